@@ -63,7 +63,8 @@ class C11(object):
                          'contraction.solved', 'names.rejected', 'decl.rejected',
                          'switch.zero_tolerance_requested',
                          'decl.rejected_again_on_a_second_attempt',
-                         'switch.failing_period_traced')
+                         'switch.failing_period_traced',
+                         'reserved_token_in_expression.judged')
 
     def n_cases(self, tier):
         self._names = all_reserved()
@@ -153,6 +154,22 @@ class C11(object):
                     else:
                         rec.violate('reserved_name_not_rejected', {'name': nm, 'outcome': outcome, 'configured': how,
                                                                    'text': text, 'n_series': n_series})
+        # reserved words and builtins USED inside an expression (not first in the block, not in the first equation): they would
+        # shadow nothing but silently bring Python objects into the model - the package refuses them as well
+        for tok in ('True', 'False', 'None', 'int', 'bool', 'len', 'list', 'range', 'eval', 'open', 'id', 'type', 'str')[case['chunk'] % 3::3]:
+            for text in ('y = 2\nx = 0.5*y + %s\nMaxTime = 2' % tok, 'y = 2\nw = y + 1\nx = w*2 + y\nz = x + %s(2.7)\nMaxTime = 2' % tok):
+                outcome, s = 'returned', None
+                try:
+                    with contextlib.redirect_stdout(io.StringIO()):
+                        s = EquationSolver(run_equation_reduction=(case['chunk'] % 2 == 0))
+                        s.ParseString(text)
+                        s.SolveEquation()
+                except Exception as e:
+                    outcome = type(e).__name__
+                n_series = len(s.TimeSeries) if s is not None else 0
+                rec.count('reserved_token_in_expression.judged')
+                if outcome == 'returned':
+                    rec.violate('reserved_name_not_rejected', {'token_used_in_expression': tok, 'text': text, 'n_series': n_series})
         return {'verdict': 'violated' if rec.violations else 'held', 'nontrivial': True,
                 'evals': 10 * len(case['names']), 'keys': ['name:' + n for n in case['names']], 'shape': 'names',
                 'counters': rec.counters, 'violations': rec.violations,
